@@ -550,16 +550,30 @@ func (w *vcWorld) submit(name string) error {
 	}
 	// the agent manager's goroutine is still finishing the sentinel's local delivery (its last act removes it from the store)
 	sid := s.ID()
-	for i := 0; i < 10000; i++ {
-		found := false
-		for k := uint64(0); k < 3 && !found; k++ {
+	gone := func() bool {
+		for k := uint64(0); k < 3; k++ {
 			sid.Timestamp[1] = k
-			found = w.c.store.KnowsBundle(sid)
+			if w.c.store.KnowsBundle(sid) {
+				return false
+			}
 		}
-		if !found {
+		return true
+	}
+	t0 := time.Now()
+	for time.Since(t0) < 3*time.Second {
+		if gone() {
 			return nil
 		}
 		time.Sleep(200 * time.Microsecond)
+	}
+	// stuck or just slow? keep the goroutines as they are now and give it another minute
+	buf := make([]byte, 1<<20)
+	w.stacks = string(buf[:runtime.Stack(buf, true)])
+	for time.Since(t0) < 63*time.Second {
+		if gone() {
+			return errors.New("timing: sentinel submission took more than 3 s to leave the store")
+		}
+		time.Sleep(time.Millisecond)
 	}
 	return errors.New("deadlock: sentinel submission is never released from the store")
 }
